@@ -40,7 +40,7 @@ class Contract:
                  returns=None, loops=None, params=None, max_paths=4000, pure_spec=None,
                  no_return=False, props=(), ghost_asserts=None, notes="", assumed=False,
                  locals=None, ghost_modifies=(), decreases=None, loop_all=None, closure=None,
-                 waive=(), havoc_stmts=(), dyn_call_ghost=None, ghost_calls=()):
+                 waive=(), havoc_stmts=(), dyn_call_ghost=None, ghost_calls=(), exit_post=()):
         self.target = target
         self.requires = list(requires)
         self.ensures = list(ensures)
@@ -66,6 +66,7 @@ class Contract:
         self.havoc_stmts = list(havoc_stmts)   # statements (normalised source) replaced by havoc
         self.dyn_call_ghost = dyn_call_ghost   # (ghost name, predicate name) counted per user call
         self.ghost_calls = list(ghost_calls)   # ghost counters of calls to this function
+        self.exit_post = list(exit_post)       # clauses over the locals, checked at every return
 
 
 class Seq:
